@@ -71,7 +71,8 @@ func NewRedundantWhitespaceRule() *RedundantWhitespaceRule {
 func (r *RedundantWhitespaceRule) Check(ctx *linter.Context) ([]linter.Violation, error) {
 	violations := []linter.Violation{}
 
-	for lineNum, line := range ctx.Lines {
+	// analysed with literal, quoted-identifier and comment content masked (it may span lines)
+	for lineNum, line := range linter.MaskedLines(ctx.SQL) {
 		// Skip checking inside string literals - we'll check the non-string parts
 		parts := extractNonStringParts(line)
 
@@ -96,7 +97,7 @@ func (r *RedundantWhitespaceRule) Check(ctx *linter.Context) ([]linter.Violation
 					Severity:   r.Severity(),
 					Message:    "Multiple consecutive spaces found",
 					Location:   models.Location{Line: lineNum + 1, Column: column},
-					Line:       line,
+					Line:       ctx.Lines[lineNum],
 					Suggestion: "Reduce to single space",
 					CanAutoFix: true,
 				})
@@ -176,13 +177,19 @@ func extractNonStringParts(line string) []linePart {
 //
 // Returns the fixed content with redundant whitespace removed, and nil error.
 func (r *RedundantWhitespaceRule) Fix(content string, violations []linter.Violation) (string, error) {
+	// Literal, quoted-identifier and comment content is masked so that it is left alone
+	// even where it spans several lines.
+	content, restore, ok := linter.MaskForRewrite(content)
+	if !ok {
+		return content, nil
+	}
 	lines := strings.Split(content, "\n")
 
 	for i, line := range lines {
 		lines[i] = r.fixLine(line)
 	}
 
-	return strings.Join(lines, "\n"), nil
+	return restore(strings.Join(lines, "\n")), nil
 }
 
 // fixLine reduces multiple spaces to single space in a line.
